@@ -20,6 +20,7 @@ EXPLANATION = (
     "arm equals the ABI table and encode_tuple computes heads/tails with the running byte size (offset = bytes "
     "before the tail, head size = size if static else 32); create() returns only after the size self-check. "
     "The head/tail offsets as numbers for concrete type trees are not enumerated."
+    ' Also evaluated here: fork-copy completeness (C20 R20.1) for the per-path length substitution, and that the candidates of every created calldata are registered where it is created.'
 )
 ASSUMPTIONS = ["the Solidity ABI specification (static vs dynamic types, head/tail layout)"]
 
